@@ -11,7 +11,7 @@ The rule text layer (send_rrul / snarf_rrule) is additionally compared with the 
 import collections
 import re
 
-from . import common, p_strm, p_rr, rrgen, rfc5545
+from . import common, p_strm, p_rr, p_rrtext, rrgen, rfc5545
 from .p_C16 import gen_ext
 
 FIELDS = {
@@ -242,6 +242,13 @@ def run(ctx):
                 known["phase"] += 1          # finding D15: INTERVAL phase of secondary / shifted rules is not kept
                 continue
             fails.append((rops[j], "%s [%s]\n--- input\n%s--- written\n%s" % (why, ",".join(sorted(cls)) or "plain", t, text)))
+    # 3. the rule text layer against the Lean model (what C05.rule_text_roundtrip is about)
+    tl = p_rrtext.run_layer(ctx, exe, rng, 4000 if thorough else 700)
+    corr = tl["diffs"]
+    for st_, txt, back in tl["changed"]:
+        fails.append(("r.parse " + txt.encode("latin-1").hex(), "a rule the parser produced is not read back from its own text:\n   rule %s\n   text %s\n   back %s" % (st_, txt, back)))
+    for x in tl["ub"]:
+        fails.append((x[1], "the rule parser: %s" % x[2][:200]))
     kl = common.load_known("C05")
     for kf in kl:
         if kf.get("status") == "known" and known.get(kf.get("class"), 0):
@@ -249,18 +256,22 @@ def run(ctx):
     ctx.cov.update({
         "evaluations": len(ops) + len(rops),
         "distinct_nontrivial": len(set(ops)) + len(set(rops)),
-        "traces_validated_against_impl": 0,
+        "traces_validated_against_impl": tl["parse_ops"] + tl["print_ops"] - len(corr),
+        "rule_texts_parsed_by_both": tl["parse_ops"],
+        "rules_printed_by_both": tl["print_ops"],
         "rule": "generated calendars: one VEVENT with a random subset of SUMMARY, DESCRIPTION, LOCATION, X-ECHS-SHELL/IFILE/OFILE/EFILE, "
                 "ORGANIZER, 0-3 ATTENDEEs, the three mail flags, umask, max-simul, set-uid/gid, owner, unrelated properties, in random order, "
                 "under calendar-level X-ECHS-OWNER/UMASK/MAX-SIMUL/SETUID/SETGID defaults; schedules: DATE and DATE-TIME DTSTART, TZID, "
                 "DURATION, one or two RRULEs of every frequency incl. SHIFT/BYEASTER, EXRULE, EXDATE, RDATE lists up to 70; round trip "
                 "(read, consume k, write with echs_task_icalify, read back) at k in {0,1,5,63,64,65,130,200}, %d occurrences compared; "
-                "non-trivial = all" % nocc,
+                "rule text layer: well-formed, hostile and mutated RRULE texts parsed by the real parser and by the model, the "
+                "resulting rules printed by both (RRULE and EXRULE, with and without cached count), real print-then-parse must be "
+                "the identity; non-trivial = all" % nocc,
         "samples": [cals[i][0][:200] for i in sorted(rng.sample(range(len(cals)), 2))],
         "round_trips_per_k": dict(kcnt),
         "known_class_hits": dict(known),
         "impl_vs_spec_failures": len(fails),
-        "impl_vs_model_differences": 0,
+        "impl_vs_model_differences": len(corr),
         "exhaustive": False,
     })
     ctx.assumptions += ["README field mapping as written in expect_dump(); `mailto:' is stripped from ORGANIZER/ATTENDEE",
@@ -268,6 +279,11 @@ def run(ctx):
     if fails:
         op, why = fails[0]
         ctx.violation("property", why, {"op": op, "failures_total": len(fails), "more": [w[:400] for _, w in fails[1:5]]})
+    elif corr:
+        i, op, a, b = corr[0]
+        ctx.violation("correspondence", "rule text layer: implementation and model differ in %d ops; first: %s -> impl %s, model %s" % (
+            len(corr), op[:200], a[:200], b[:200]), {"correspondence": "Echse.Model.RrText vs evical.c send_rrul / snarf_rrule", "op": op,
+                                                      "impl": a, "model": b}, found_input=False)
 
 
 def replay(ctx, rep):
